@@ -23,6 +23,59 @@ from streamflow.workflow.token import (  # noqa: E402
     TerminationToken,
 )
 
+import itertools  # noqa: E402
+
+import streamflow.core.data as _core_data  # noqa: E402
+import streamflow.data.manager as _data_manager  # noqa: E402
+
+_dl_seq = itertools.count()
+
+
+class SeqDataLocation(_core_data.DataLocation):
+    """DataLocation hashed by creation order instead of by address: ``DefaultDataManager.get_source_location``
+    iterates over a *set* of DataLocations, whose order would otherwise depend on object addresses (un-owned
+    nondeterminism; see DESIGN 2.1).  Equality stays identity."""
+
+    __slots__ = ("_seq",)
+
+    def __init__(self, *a, **kw):
+        super().__init__(*a, **kw)
+        self._seq = next(_dl_seq)
+
+    def __hash__(self):
+        return self._seq
+
+
+_data_manager.DataLocation = SeqDataLocation
+
+
+def reset_cachebox_state():
+    """cachebox's ``@cached`` keeps its per-key in-flight locks and pending errors in the *closure* of the decorated
+    function, i.e. once per process, keyed without ``self``.  In production there is one event loop; here thousands
+    of executions share a worker process, and an execution that ends with a task suspended inside such a lock would
+    leave the lock held for every later execution (cross-execution interference).  Clear them per execution."""
+    import streamflow.persistence.sqlite as _sq
+
+    for name, attr in vars(_sq.SqliteDatabase).items():
+        clo = getattr(attr, "__closure__", None)
+        if not clo:
+            continue
+        for cell in clo:
+            try:
+                v = cell.cell_contents
+            except ValueError:
+                continue
+            if type(v).__name__ == "Cache" and type(v).__module__.startswith("cachebox"):
+                v.clear()
+            elif isinstance(v, dict) and attr.__code__.co_freevars[clo.index(cell)] == "pending_errors":
+                v.clear()
+
+
+def reset_dataloc_seq():
+    global _dl_seq
+    _dl_seq = itertools.count()
+
+
 _quiet = False
 
 
@@ -67,6 +120,8 @@ def make_context(workdir: str | None = None, failure_manager: dict | None = None
         cfg["scheduling"] = {"scheduler": scheduler}
     if extra:
         cfg.update(extra)
+    reset_dataloc_seq()
+    reset_cachebox_state()
     return build_context(cfg)
 
 
